@@ -228,3 +228,35 @@ package regattaserver
 //@   requires s != nil && s.Tables != nil && req != nil && srv != nil
 //@   before snapshot.(*snapshotFile).Write assert [C07.final] cmdKind(p) == 2 && hasLI(p) && liVal(p) == resp.Index
 //@   modifies nothing
+
+// ---------------------------------------------------------------- token authentication (C17)
+
+// the verdict of a configured check on a call, as a function of (check, call context)
+//@ uninterp func authErr(f Ref, ctx context.Context) error
+//@ func authContract
+//@   assumed
+//@   params ctx
+//@   results c, err
+//@   ensures err == authErr(self, ctx)
+//@   modifies nothing
+
+// AuthFuncOverride (consulted by the auth interceptor for every method of the service, unary and
+// streaming) answers with exactly the verdict of the configured check
+//@ func (*TablesServer).AuthFuncOverride
+//@   functype TablesServer.AuthFunc authContract
+//@   results c, err
+//@   requires t != nil && t.AuthFunc != nil
+//@   ensures [C17.override.tables] err == authErr(t.AuthFunc, ctx)
+//@   modifies nothing
+//@ func (*BackupServer).AuthFuncOverride
+//@   functype BackupServer.AuthFunc authContract
+//@   results c, err
+//@   requires m != nil && m.AuthFunc != nil
+//@   ensures [C17.override.backup] err == authErr(m.AuthFunc, ctx)
+//@   modifies nothing
+//@ func (*ResetServer).AuthFuncOverride
+//@   functype ResetServer.AuthFunc authContract
+//@   results c, err
+//@   requires m != nil && m.AuthFunc != nil
+//@   ensures [C17.override.reset] err == authErr(m.AuthFunc, ctx)
+//@   modifies nothing
